@@ -451,9 +451,20 @@ NOTHROW_CTOR = ("is_nothrow_constructible", "is_nothrow_default_constructible", 
                 "is_nothrow_move_constructible")
 
 
+INVOKE_FAMILY = {"is_invocable": 1, "invoke_result": 1, "invocable": 1, "regular_invocable": 1, "predicate": 1, "relation": 1,
+                 "equivalence_relation": 1, "strict_weak_order": 1, "is_invocable_r": 2}
+
+
 def std_unspecified(trait, ts):
     """(trait, types) combinations for which the standard leaves the answer open or libstdc++ 12 is known to deviate from
     it; a conforming etl could legitimately differ from the oracle there, so they are not generated (soundness first)"""
+    # GCC 12 accepts a prvalue of type `volatile void` / `const void` as an argument for an ellipsis parameter inside
+    # decltype (only plain `void` is diagnosed), so std::invoke_result<void(...), cv void> names a type although the
+    # call is ill-formed by [expr.call]; an etl that rejects it is right -> cv void ARGUMENTS are not generated
+    if trait in INVOKE_FAMILY:
+        for t in ts[INVOKE_FAMILY[trait]:]:
+            if t.cat == "void" and t.cv:
+                return True
     for t in ts:
         # LWG 2116: whether is_nothrow_constructible considers the destructor is unresolved; GCC 12's builtin answers
         # differently for T and T[N] when ~T() is noexcept(false)
@@ -805,7 +816,7 @@ def build_obligations(part, lv, allt, names, seed, tier):
     seen, out = set(), []
     for o in obs:
         m = re.match(r"^([A-Za-z_0-9]+)<", o.name)
-        if m and m.group(1) in NOTHROW_CTOR:
+        if m and (m.group(1) in NOTHROW_CTOR or m.group(1) in INVOKE_FAMILY):
             used = [allt[int(x)] for x in re.findall(r"c15t::T(\d+)", o.expr)]
             if std_unspecified(m.group(1), used):
                 continue
